@@ -597,7 +597,7 @@ theorem decode_encode (c : Compiled) (cells : List Nat) (dt : List DWord) (start
     (hgood : ∀ row ∈ c.vtbl, ∀ e ∈ row, EntryGood c starts e)
     (hfirst : ∀ k, k < c.vtbl.length → c.slots.first.get k < stopBit) :
     ∃ d, decode (encode c) (msOf c) cells = .ok d ∧ d.vtbls = c.vtbl.flatten.map (toD c starts) ∧
-      d.vptrs = vpsFrom c 0 c.vtbl 0 ∧ d.dtbls = dt := by
+      d.vptrs = vpsFrom c 0 c.vtbl 0 ∧ d.dtbls = dt ∧ d.ss = ssOf (msOf c) (encode c).slots := by
   obtain ⟨st', hfold, hdec⟩ := decode_classes (encode c) c starts c.vtbl 0 cells
     { enc := 0, dec := [], last := false } [] [] { enc := 0, dec := 0, hr := 0 }
     hcells hnd (by simp) hgood (by simpa using hfirst)
@@ -611,6 +611,6 @@ theorem decode_encode (c : Compiled) (cells : List Nat) (dt : List DWord) (start
   simp only [hdt, bind, Except.bind]
   simp only [List.nil_append, List.length_nil] at hfold
   rw [hfold]
-  exact ⟨_, rfl, by simpa using hdec, rfl, rfl⟩
+  exact ⟨_, rfl, by simpa using hdec, rfl, rfl, rfl⟩
 
 end Yomm2.RoundTrip
